@@ -5,19 +5,30 @@ import json, glob, os, re
 from collections import Counter, defaultdict
 rows = []
 checks = [c['property_id'] for c in json.load(open('/verif/MANIFEST.json'))['checks']]
-for d in sorted(glob.glob('/verif/seeded/C*-*')):
+def natural(d):
+    a, b = os.path.basename(d).split('-')
+    return (a, int(b))
+NOT_A_VIOLATION = {
+    'C18-5': 'judged not to break C18 at its stated precision (one frame after a seek); see 12.1',
+}
+LIMIT = {
+    'C07-4': 'not caught: needs a switch between two loads inside one function (yield-point granularity, section 7)',
+}
+for d in sorted(glob.glob('/verif/seeded/C*-*'), key=natural):
     name = os.path.basename(d)
-    if not os.path.exists(f'{d}/caught.json'): continue
-    c = json.load(open(f'{d}/caught.json'))
-    m = json.load(open(f'{d}/meta.json'))
-    ran = [k for k in checks if k in c['results']]
-    caught = [k for k in ran if c['results'][k]['exit'] == 1]
-    other = [k for k in ran if c['results'][k]['exit'] not in (0, 1)]
-    tgt = name.split('-')[0]
-    o = c['results'].get(caught[0], {}).get('oracle') if caught else None
-    o = re.sub(r'^oracle ', '', o or '')[:110].replace('|', '/')
-    rows.append(f"| {name} | {m['needs_to_manifest'][:150].replace('|','/')} | {', '.join(caught) or '**none**'}{' (harness exit: ' + ', '.join(other) + ')' if other else ''} | {len(ran)} | {o} |")
-seed_tbl = "| seeded change | needs, to manifest | caught by | checks run | first oracle message (truncated) |\n|---|---|---|---|---|\n" + "\n".join(rows)
+    m = json.load(open(f'{d}/meta.json')) if os.path.exists(f'{d}/meta.json') else {'needs_to_manifest': ''}
+    main = json.load(open(f'{d}/caught.json')) if os.path.exists(f'{d}/caught.json') else None
+    scratch = json.load(open(f'{d}/caught.scratch.json')) if os.path.exists(f'{d}/caught.scratch.json') else None
+    if not main and not scratch: continue
+    caught = [k for k in checks if main and main['results'].get(k, {}).get('exit') == 1]
+    also = [k for k in checks if scratch and scratch['results'].get(k, {}).get('exit') == 1 and k not in caught]
+    src = main if caught else scratch
+    first = (caught or also or [None])[0]
+    o = (src['results'].get(first, {}).get('oracle') if first else None) or ''
+    o = re.sub(r'^oracle ', '', o)[:100].replace('|', '/')
+    verdict = ', '.join(caught) if caught else ('**none**' if name not in NOT_A_VIOLATION and name not in LIMIT else '**none** - ' + (NOT_A_VIOLATION.get(name) or LIMIT.get(name)))
+    rows.append(f"| {name} | {m['needs_to_manifest'][:140].replace('|','/')} | {verdict} | {', '.join(also) or '-'} | {o} |")
+seed_tbl = "| seeded change | needs, to manifest | caught by (run against /repo) | also caught by (scratch-worktree run of all 16 checks) | first oracle message (truncated) |\n|---|---|---|---|---|\n" + "\n".join(rows)
 mut_tbl = '(not run yet)'
 p = '/verif/seeded/hand_mutants_results.json'
 if os.path.exists(p):
